@@ -80,7 +80,7 @@ func makeFSTree(r *rand.Rand, dir string, depth int, st *fsStats, budget *int) {
 			}
 			st.dirs++
 			if r.Intn(4) == 0 {
-				os.Chmod(p, []os.FileMode{0o2775 &^ 0o2000 | os.ModeSetgid, 0o777 | os.ModeSticky, 0o700, 0o755 | os.ModeSetuid}[r.Intn(4)])
+				os.Chmod(p, []os.FileMode{0o2775&^0o2000 | os.ModeSetgid, 0o777 | os.ModeSticky, 0o700, 0o755 | os.ModeSetuid}[r.Intn(4)])
 				st.specialPerms++
 			}
 			before := *budget
@@ -281,7 +281,23 @@ func TestC18(t *testing.T) {
 			kind := "fifo"
 			sp := filepath.Join(where, "zz-special")
 			var cleanup func()
-			if i%2 == 0 {
+			if i%4 == 2 {
+				// a character device (the null device's numbers) or, next time, a block device; creating
+				// device nodes needs a privilege: without it the case falls back to a fifo
+				mode, dev := uint32(syscall.S_IFCHR|0o644), 1<<8|3
+				kind = "chardev"
+				if i%8 == 6 {
+					mode, dev, kind = uint32(syscall.S_IFBLK|0o644), 7<<8|0, "blockdev"
+				}
+				if err := syscall.Mknod(sp, mode, dev); err != nil {
+					kind = "fifo"
+					c.Count("mknod_not_permitted", 1)
+					if err := syscall.Mkfifo(sp, 0o644); err != nil {
+						c.Harness("mkfifo: %v", err)
+						return
+					}
+				}
+			} else if i%2 == 0 {
 				if err := syscall.Mkfifo(sp, 0o644); err != nil {
 					c.Harness("mkfifo: %v", err)
 					return
@@ -426,6 +442,13 @@ func TestC18(t *testing.T) {
 			c.Violation("C18|special-accepted|fifo", "a fifo as import root was accepted")
 		}
 		c.Count("rejected_trees", 1)
+		if fi, err := os.Lstat("/dev/null"); err == nil && fi.Mode()&os.ModeCharDevice != 0 {
+			if l, _, err := builder.BuildUnixFSRecursive("/dev/null", st.LinkSystem(false)); err == nil {
+				c.Violation("C18|special-accepted|chardev", "the character device /dev/null as import root was accepted (link %v)", l)
+			}
+			c.Count("rejected_trees", 1)
+			c.Sig("root|chardev", true)
+		}
 		if _, _, err := builder.BuildUnixFSRecursive(filepath.Join(dir, "does-not-exist"), st.LinkSystem(false)); err == nil {
 			c.Violation("C18|missing-root-accepted", "a non-existent import root was accepted")
 		}
